@@ -106,7 +106,10 @@ def run(chk):
         for trainer in ("ml", "map"):
             cfg = dict(w=np.ones(K) / K, mu=mu0, var=var0, thr=thr, sw=sw, eps=eps, cap=1, cthr=None)
             if trainer == "map":
-                cfg = dict(cfg, w=None, mu=None, var=None, map=dict(relevance=r.choice([1e-3, 4.0, None]), alpha=0.5, prior=(np.ones(K) / K, mu0, var0, thr)))
+                rel_ = r.choice([1e-3, 4.0, None, None])
+                # fixed-ratio adaptation also with one ratio per component (unequal entries): the adapted weights still lie on the simplex
+                al_ = 0.5 if (rel_ is not None or i % 2) else np.linspace(0.1, 0.9, K)
+                cfg = dict(cfg, w=None, mu=None, var=None, map=dict(relevance=rel_, alpha=al_, prior=(np.ones(K) / K, mu0, var0, thr)))
             m, prior = gt.build_machine(cfg)
             for k in range(4):
                 m.fit(X)
